@@ -487,6 +487,65 @@ def process_level_state():
             return "instance:" + n
         return None
 
+    _RO_FUNCS = {"dict", "list", "set", "tuple", "frozenset", "sorted", "len", "deepcopy", "copy", "enumerate", "any", "all",
+                 "min", "max", "sum", "iter", "reversed", "zip", "str", "repr"}
+    _RO_METHODS = {"copy", "get", "items", "keys", "values", "index", "count"}
+    all_sources = {q: q.read_text() for q in root.rglob("*.py")}
+
+    def flat_constant(v):
+        """a dict / list / set LITERAL whose members are constants (or tuples of constants)"""
+        def const(x):
+            return isinstance(x, ast.Constant) or (isinstance(x, ast.Tuple) and all(const(e) for e in x.elts))
+        if isinstance(v, ast.Dict):
+            return all(k is not None and const(k) for k in v.keys) and all(const(x) for x in v.values)
+        if isinstance(v, (ast.List, ast.Set)):
+            return all(const(x) for x in v.elts)
+        return False
+
+    def only_read(tree, name, here):
+        """a module-level constant table that is never mutated, never aliased and not visible to other modules: every
+        occurrence of its name is a read (copied through dict()/list()/.copy(), looked up, iterated, tested with `in`).
+        Such a table is not state (its value after any run is its literal)."""
+        import re as _re
+        for q, text in all_sources.items():
+            if q != here and _re.search(r"\b" + _re.escape(name) + r"\b", text):
+                return False
+        parents = {}
+        for n in ast.walk(tree):
+            for c in ast.iter_child_nodes(n):
+                parents[c] = n
+        seen_def = 0
+        for n in ast.walk(tree):
+            if not (isinstance(n, ast.Name) and n.id == name):
+                continue
+            par = parents.get(n)
+            if isinstance(n.ctx, ast.Store):
+                seen_def += 1
+                if seen_def > 1 or not isinstance(par, (ast.Assign, ast.AnnAssign)) or parents.get(par) is not tree:
+                    return False
+                continue
+            if not isinstance(n.ctx, ast.Load):
+                return False
+            if isinstance(par, ast.Call) and n in par.args:
+                f = par.func
+                fn = f.id if isinstance(f, ast.Name) else (f.attr if isinstance(f, ast.Attribute) else "")
+                if fn in _RO_FUNCS and len(par.args) == 1:
+                    continue
+                return False
+            if isinstance(par, ast.Attribute) and par.value is n:
+                g = parents.get(par)
+                if par.attr in _RO_METHODS and isinstance(g, ast.Call) and g.func is par:
+                    continue
+                return False
+            if isinstance(par, ast.Subscript) and par.value is n and isinstance(par.ctx, ast.Load):
+                continue
+            if isinstance(par, ast.Compare) and n in par.comparators and all(isinstance(o, (ast.In, ast.NotIn)) for o in par.ops):
+                continue
+            if isinstance(par, (ast.For, ast.comprehension)) and par.iter is n:
+                continue
+            return False
+        return seen_def == 1
+
     for p in sorted(root.rglob("*.py")):
         mod = str(p.relative_to(root))[:-3].replace("/", ".")
         tree = ast.parse(p.read_text())
@@ -500,6 +559,8 @@ def process_level_state():
                     tg, v = st.target.id, st.value
                 if tg:
                     k = kind(v)
+                    if k and prefix == "" and flat_constant(v) and only_read(tree, tg, p):
+                        k = None        # a module-level table of constants that is only ever read
                     if k:
                         out.append((mod, prefix + tg, k))
                 if isinstance(st, ast.ClassDef):
